@@ -635,8 +635,10 @@ pub fn all_cases(tier: Tier) -> Vec<Case> {
     v.extend(g3(tier));
     v.extend(g5(tier));
     v.extend(g4(tier));
-    v.extend(g2(tier));
-    v.extend(g1(tier));
+    // quick: every second program of the two big families (thorough: all)
+    let stride = tier.pick(2, 1);
+    v.extend(g2(tier).into_iter().step_by(stride));
+    v.extend(g1(tier).into_iter().step_by(stride));
     v
 }
 
@@ -760,7 +762,7 @@ fn run_all_and_probes(ctx: &mut Ctx) {
 pub static C01: CheckDef = CheckDef {
     id: "C01",
     level: "exploration",
-    rule: "MiniCairo families, each enumerated completely up to its bound: G1 expression trees of depth <=2 over + - * / % on u8, i8, felt252 (thorough adds u32, u128) with leaves {a, b, literals}, plus comparison/short-circuit guards of a panicking operand (evaluation order is observable through which panic fires); G2 control skeletons: nestings of depth <=2 of if / match-on-integer / while / for / loop-with-break with a 4-condition menu and a 6-effect menu (accumulate, mix, array append, early return, panic, checked subtract) plus break/continue; G3 data movement: 6 producers (struct, tuple, enum, Option, nested tuple, non-copy struct with an array) x consumers (field access, destructuring, copy, snapshot/desnap, match, unwrap, through a call); G4 every sequence of length <=2 (thorough <=3) over 23 array/dict operations (append v, pop_front, get i, at i, len, dict insert k v, dict get k; v,k,i in {0,1,2}); G5 every subset of 4 variables live across a call / a branch merge / a loop back-edge / two calls; G6 member routing: a tuple of arity 2 / 3 is destructured and a tuple of the same type rebuilt from the parts under every routing map positions->members (4 / 27 maps: all permutations and duplications) in the contexts direct, behind one call, behind two calls, one arm of a branch whose other arm is the identity, nested in an outer tuple, plus the type-correct routings of a struct with differently typed members. G8 operator precedence and associativity: expressions printed WITHOUT parentheses - every pair (thorough: triple) of integer operators, an integer operator on either side of each comparison, every pair of boolean operators over plain and negated operands, equalities next to boolean / bitwise operators, comparisons joined by && / || - whose denoted tree is built by a precedence climber written from the language reference; G7 25 feature probes outside the MiniCairo AST with hand-derived closed forms (derived PartialEq/Serde/Default/Clone, closures, if-let/while-let/let-else, ref parameters and member assignment, Option/Result combinators and `?`, evaluation order of arguments/tuple/struct members, loops with break values and continue, nested matches, shadowing/snapshots, trait dispatch with default methods, assertion panic data, ByteArray, early returns, generics, dict last-write-wins, spans, nested destructuring, compound assignment). Each program is compiled with the default configuration and with optimisations disabled and run on the full cross product of B(T) (u8: {0,1,2,127,128,254,255}; i8: {-128,-127,-1,0,1,126,127}; felt252: {0,1,2,-1,-2,2^128}). Oracle: result felts == reference evaluator's value, or panic data == the evaluator's panic data, exactly. distinct_nontrivial = distinct program texts.",
+    rule: "MiniCairo families, each enumerated completely up to its bound (quick runs every second program of G1 and G2): G1 expression trees of depth <=2 over + - * / % on u8, i8, felt252 (thorough adds u32, u128) with leaves {a, b, literals}, plus comparison/short-circuit guards of a panicking operand (evaluation order is observable through which panic fires); G2 control skeletons: nestings of depth <=2 of if / match-on-integer / while / for / loop-with-break with a 4-condition menu and a 6-effect menu (accumulate, mix, array append, early return, panic, checked subtract) plus break/continue; G3 data movement: 6 producers (struct, tuple, enum, Option, nested tuple, non-copy struct with an array) x consumers (field access, destructuring, copy, snapshot/desnap, match, unwrap, through a call); G4 every sequence of length <=2 (thorough <=3) over 23 array/dict operations (append v, pop_front, get i, at i, len, dict insert k v, dict get k; v,k,i in {0,1,2}); G5 every subset of 4 variables live across a call / a branch merge / a loop back-edge / two calls; G6 member routing: a tuple of arity 2 / 3 is destructured and a tuple of the same type rebuilt from the parts under every routing map positions->members (4 / 27 maps: all permutations and duplications) in the contexts direct, behind one call, behind two calls, one arm of a branch whose other arm is the identity, nested in an outer tuple, plus the type-correct routings of a struct with differently typed members. G8 operator precedence and associativity: expressions printed WITHOUT parentheses - every pair (thorough: triple) of integer operators, an integer operator on either side of each comparison, every pair of boolean operators over plain and negated operands, equalities next to boolean / bitwise operators, comparisons joined by && / || - whose denoted tree is built by a precedence climber written from the language reference; G7 25 feature probes outside the MiniCairo AST with hand-derived closed forms (derived PartialEq/Serde/Default/Clone, closures, if-let/while-let/let-else, ref parameters and member assignment, Option/Result combinators and `?`, evaluation order of arguments/tuple/struct members, loops with break values and continue, nested matches, shadowing/snapshots, trait dispatch with default methods, assertion panic data, ByteArray, early returns, generics, dict last-write-wins, spans, nested destructuring, compound assignment). Each program is compiled with the default configuration and with optimisations disabled and run on the full cross product of B(T) (u8: {0,1,2,127,128,254,255}; i8: {-128,-127,-1,0,1,126,127}; felt252: {0,1,2,-1,-2,2^128}). Oracle: result felts == reference evaluator's value, or panic data == the evaluator's panic data, exactly. distinct_nontrivial = distinct program texts.",
     assumptions: &["the reference evaluator (mini.rs) is the specification for the modelled subset: checked integer arithmetic with the corelib panic strings, left-to-right evaluation, short-circuit && ||, truncating signed division", "programs outside MiniCairo are only covered differentially (C05)"],
     run: run_all_and_probes,
     stack_mb: 32,
